@@ -235,7 +235,8 @@ public:
 
     //--------------------------------------------------------------------
     //compare vector
-    std::vector<bool> operator>(const base_array<T>& rhs) const noexcept {
+    std::vector<bool> operator>(const base_array<T>& rhs) const {
+        DSPLIB_ASSERT(_vec.size() == rhs._vec.size(), "array sizes must be equal");
         std::vector<bool> res(_vec.size());
         for (size_t i = 0; i < _vec.size(); ++i) {
             res[i] = (_vec[i] > rhs._vec[i]);
@@ -243,7 +244,8 @@ public:
         return res;
     }
 
-    std::vector<bool> operator<(const base_array<T>& rhs) const noexcept {
+    std::vector<bool> operator<(const base_array<T>& rhs) const {
+        DSPLIB_ASSERT(_vec.size() == rhs._vec.size(), "array sizes must be equal");
         std::vector<bool> res(_vec.size());
         for (size_t i = 0; i < _vec.size(); ++i) {
             res[i] = (_vec[i] < rhs._vec[i]);
@@ -251,7 +253,8 @@ public:
         return res;
     }
 
-    std::vector<bool> operator==(const base_array<T>& rhs) const noexcept {
+    std::vector<bool> operator==(const base_array<T>& rhs) const {
+        DSPLIB_ASSERT(_vec.size() == rhs._vec.size(), "array sizes must be equal");
         std::vector<bool> res(_vec.size());
         for (size_t i = 0; i < _vec.size(); ++i) {
             res[i] = (_vec[i] == rhs._vec[i]);
@@ -259,7 +262,7 @@ public:
         return res;
     }
 
-    std::vector<bool> operator!=(const base_array<T>& rhs) const noexcept {
+    std::vector<bool> operator!=(const base_array<T>& rhs) const {
         auto r = (*this == rhs);
         r.flip();
         return r;
